@@ -3,6 +3,7 @@ package props
 import (
 	"go/token"
 	"go/types"
+	"strings"
 
 	"golang.org/x/tools/go/ssa"
 
@@ -79,6 +80,10 @@ func loopBodyEntry(f *ssa.Function, inBody ssa.Instruction) (*ssa.BasicBlock, *s
 }
 
 func checkC10(p *load.Program, r *kit.Report) {
+	importRules(p, r, "C11", "clean writes the best chain and the branches to storage and then drops them from memory: history stays retrievable only if the files have the layout the readers expect", 2,
+		func(o *kit.Obligation) bool {
+			return o.Rule != "MERGE-SHAPE" || strings.HasPrefix(o.Construct, "Branch.Save")
+		}, "MAIN-FILE-SHAPE", "MERGE-SHAPE")
 	r.NotDecided = "the statement itself (all observables equal before/after Clean for every tree): consolidation correctness for three or more generations as values, file-boundary and prune-depth arithmetic over histories. Decided are ordering, coverage-of-every-branch, label and all-or-nothing facts that are necessary for it."
 	r.Rule("ORDER", "clean runs consolidate → saveMainBranch → prune → saveInvalidHashes, each behind the previous nil-error edge; in prune every branch is saved before it is pruned or dropped and a Save error returns before repo.branches is replaced", 5)
 	r.Rule("NO-EFFECT-BEFORE-ERROR", "consolidate replaces repo.branches and repo.longest only after its last error return", 3)
